@@ -948,6 +948,98 @@ pub fn run_scan(args: &Args, report: &mut Report) {
                 }
             }
         }
+        // creation races on FRESH keys: a deleter hammers delete(k) while k is created for the first time (insert /
+        // insert_bytes / insert_if_absent / creating increment, in turn). Whichever way each round ends, once both
+        // calls have returned the key is either in both indexes or in neither: get and a one-key range query agree
+        if report.violations.is_empty() {
+            let rounds = if args.thorough() { 12_000u64 } else { 2_500 };
+            let round = Arc::new(AtomicU64::new(u64::MAX));
+            let done = Arc::new(AtomicU64::new(u64::MAX));
+            let acked = Arc::new(AtomicU64::new(u64::MAX));
+            let deleted = Arc::new(AtomicU64::new(0));
+            let fresh = |r: u64| format!("fresh-{rid}-{r:05}").into_bytes();
+            let deleter = {
+                let (store, round, done, acked, deleted) = (store.clone(), round.clone(), done.clone(), acked.clone(), deleted.clone());
+                std::thread::spawn(move || {
+                    let mut next = 0u64;
+                    while next < rounds {
+                        if round.load(Ordering::Acquire) != next {
+                            std::hint::spin_loop();
+                            continue;
+                        }
+                        let k = format!("fresh-{rid}-{next:05}").into_bytes();
+                        let mut ok = false;
+                        loop {
+                            let finished = done.load(Ordering::Acquire) == next;
+                            if !ok && store.delete(&k).is_ok() {
+                                ok = true;
+                                deleted.fetch_add(1, Ordering::Relaxed);
+                            }
+                            if finished {
+                                break;
+                            }
+                        }
+                        acked.store(next, Ordering::Release);
+                        next += 1;
+                    }
+                })
+            };
+            for r in 0..rounds {
+                let k = fresh(r);
+                round.store(r, Ordering::Release);
+                // let the deleter get going (it must already be inside delete when the creation publishes)
+                for _ in 0..(r % 7) * 30 {
+                    std::hint::spin_loop();
+                }
+                let v = values::make(Tag { key_id: key_id(&k), writer: 3, seq: r as u32 }, 40);
+                match r % 4 {
+                    0 => {
+                        let _ = store.insert(&k, &v);
+                    }
+                    1 => {
+                        let _ = store.insert_bytes(&k, bytes::Bytes::from(v));
+                    }
+                    2 => {
+                        let _ = store.insert_if_absent(&k, &v);
+                    }
+                    _ => {
+                        let _ = store.atomic_increment(&k, 5);
+                    }
+                }
+                done.store(r, Ordering::Release);
+                while acked.load(Ordering::Acquire) != r {
+                    std::hint::spin_loop();
+                }
+                let got = store.get(&k).ok();
+                let ranged = store.range_query(&k, &k, 4).ok().and_then(|p| p.into_iter().next().map(|p| p.1));
+                report.count("fresh_key_creation_races", 1);
+                if got != ranged {
+                    report.violation(
+                        "scan:range-differs-from-get",
+                        format!("key {} was created for the first time while another thread was deleting it; after both calls returned get = {:?} but a one-key range query = {:?}", hex(&k), got.as_ref().map(|v| values::describe(v)), ranged.as_ref().map(|v| values::describe(v))),
+                        replay.clone(),
+                    );
+                    round.store(u64::MAX - 1, Ordering::Release);
+                    break;
+                }
+                if got.is_some() {
+                    let _ = store.delete(&k);
+                }
+            }
+            // release the deleter if the loop ended early
+            if !report.violations.is_empty() {
+                let from = acked.load(Ordering::Acquire).wrapping_add(1);
+                for r in from..rounds {
+                    round.store(r, Ordering::Release);
+                    done.store(r, Ordering::Release);
+                    while acked.load(Ordering::Acquire) != r {
+                        std::hint::spin_loop();
+                    }
+                }
+            }
+            let _ = deleter.join();
+            report.count("fresh_key_deletes_that_found_the_key", deleted.load(Ordering::Relaxed));
+        }
         if churn_ops > 0 {
             report.nontrivial.insert(fnv_mix(rid, churn_ops));
         }
